@@ -154,3 +154,30 @@ UNITS['anyid'] = dict(
     ghost_sig=[],
     type_rules=[(r'DigestType$', 'builtin', 'unsigned long'), (r'^std::size_t$|^size_t$', 'builtin', 'unsigned long')],
 )
+
+EDB = 'EventDispatcherBase<int, void (VArg), Pol, MixinFilter<EventDispatcherBase<int, void (VArg), Pol, void>>>'
+EDB0 = 'EventDispatcherBase<int, void (VArg), Pol, void>'
+EDBX = 'EventDispatcherBase<int, void (VArg), PolX, void>'
+MF = 'MixinFilter<' + EDB0 + '>'
+UNITS['dispatcher'] = dict(
+    tu='inst/dispatcher.cpp', # filters of 16..23 characters each: same allocation pattern in clang, so node ids agree across the dumps
+    filter=['EventDispatcherBase', 'eventpp::MixinFilter', '_::ForEachMixins', '_::DefaultGetEvent'], std='c++11',
+    root=('ClassTemplateSpecializationDecl', 'EventDispatcherBase'), root_q=EDB0,
+    extra_roots=[('ClassTemplateSpecializationDecl', 'EventDispatcherBase', EDBX),
+                 ('ClassTemplateSpecializationDecl', 'MixinFilter', MF)],
+    names={EDB0: 'ED', EDBX: 'EDX', MF: 'MF', 'VArg': 'VArg', 'UserEach': 'UserEach', 'UserEachIf': 'UserEachIf'},
+    value_records=['VArg'],
+    opaque_records=['VArg', 'UserEach', 'UserEachIf', 'CLT'],
+    ghost_sig=[],
+    env_calls={'getEvent': 'Pol_getEvent'},
+    type_resubst=[(r'(typename )?std::conditional<std::is_const<.*>::value, const CallbackList_ \*, CallbackList_ \*>::type', 'CallbackList<void (VArg), Pol> *')],
+    type_rules=[
+      (r'Handle_?$', 'wp', 'Handle'),
+      (r'^CallbackList<', 'record', 'CLT'),
+      (r'^CallbackListBase<', 'record', 'CLT'),
+      (r'^std::function<', 'function', 'Callback'),
+      (r'^std::(unordered_)?map<', 'map', 'WMap'),
+      (r'^std::_Rb_tree_(const_)?iterator<|^std::__detail::_Node_(const_)?iterator(_base)?<', 'mapit', 'WMIt'),
+      (r'^std::pair<const int, CallbackList<', 'record', 'WPair'),
+    ],
+)
